@@ -19,7 +19,7 @@ EXTENDS Kernel, TLC, Json
 CONSTANTS Objs,      \* Process object slots
           CLK,       \* clock ticks per second (create_time = start/CLK + boot)
           Sigs,      \* signal numbers exercised
-          Setters,   \* subset of {"nice","ionice","rlimit","affinity"}
+          Setters,   \* subset of {"nice","ionice","rlimit","affinity","affinity_all"}
           Kinds,     \* subset of {"proc", "popen"}: psutil.Process(pid) / psutil.Popen(...)
           Fixes      \* see above
 
@@ -32,7 +32,7 @@ vars == <<kvars, bootMemo, pidsReused, objs, ev>>
 view == <<kvars, bootMemo, pidsReused, objs>>
 
 NoObj == [pid |-> -1, forInc |-> 0, ident |-> 0, gone |-> FALSE, reused |-> FALSE,
-          saidFalse |-> FALSE, kind |-> "-"]
+          saidFalse |-> FALSE, kind |-> "-", blk |-> FALSE]
 
 Used(o) == objs[o].pid # -1
 
@@ -74,13 +74,13 @@ New(o, p, kd) ==
        THEN /\ objs' = [objs EXCEPT ![o] = [pid |-> p, forInc |-> table[p].inc,
                                             ident |-> Ident(p), gone |-> FALSE,
                                             reused |-> FALSE, saidFalse |-> FALSE,
-                                            kind |-> kd]]
+                                            kind |-> kd, blk |-> FALSE]]
             /\ bootMemo' = MemoAfterIdent
             /\ ev' = [op |-> "new", o |-> o, pid |-> p, kind |-> kd, res |-> "ok"]
        ELSE IF kd = "popen" /\ p > 0
          THEN /\ objs' = [objs EXCEPT ![o] = [pid |-> p, forInc |-> 0, ident |-> -1,
                                               gone |-> TRUE, reused |-> FALSE,
-                                              saidFalse |-> FALSE, kind |-> kd]]
+                                              saidFalse |-> FALSE, kind |-> kd, blk |-> FALSE]]
               /\ UNCHANGED bootMemo
               /\ ev' = [op |-> "new", o |-> o, pid |-> p, kind |-> kd, res |-> "ok"]
          ELSE /\ UNCHANGED <<objs, bootMemo>>
@@ -88,7 +88,7 @@ New(o, p, kd) ==
   /\ UNCHANGED <<kvars, pidsReused>>
 
 \* the user drops the reference (frees the model slot)
-Drop(o) == /\ Used(o)
+Drop(o) == /\ Used(o) /\ ~objs[o].blk
            /\ objs' = [objs EXCEPT ![o] = NoObj]
            /\ ev' = [op |-> "drop", o |-> o]
            /\ UNCHANGED <<kvars, bootMemo, pidsReused>>
@@ -175,6 +175,24 @@ Ppid(o) ==
                forInc |-> ob.forInc, owner |-> table[p].inc]
   /\ UNCHANGED kvars
 
+\* `with p.oneshot():` entered / left on the object.  A block changes speed,
+\* never answers: nothing of the identity state depends on it (C16), so the
+\* predictions of every other action are the same inside and outside.
+Oneshot(o, enter) ==
+  /\ Used(o) /\ "oneshot" \in Kinds /\ objs[o].blk = ~enter
+  /\ objs' = [objs EXCEPT ![o].blk = enter]
+  /\ ev' = [op |-> IF enter THEN "enter" ELSE "exit", o |-> o]
+  /\ UNCHANGED <<kvars, bootMemo, pidsReused>>
+
+\* wait(timeout=0) on a process that is not a child of the caller: None once
+\* the PID is free (the exit code is then cached by the object), TimeoutExpired
+\* while anybody owns the PID.  Identity state is not touched.
+Wait0(o) ==
+  /\ Used(o)
+  /\ ev' = [op |-> "wait", o |-> o, pid |-> objs[o].pid,
+            res |-> IF Live(objs[o].pid) THEN "timeout" ELSE "none"]
+  /\ UNCHANGED <<kvars, bootMemo, pidsReused, objs>>
+
 \* a == b and hash(a) == hash(b)
 Eq(a, b) ==
   /\ Used(a) /\ Used(b) /\ a # b
@@ -200,8 +218,9 @@ IterAll ==
 Next == \/ \E p \in Pids : Spawn(p) \/ Exit(p) \/ Reap(p)
         \/ Tick
         \/ \E b \in Boots : ClockStep(b)
-        \/ \E o \in Objs, p \in Pids, kd \in Kinds : New(o, p, kd)
-        \/ \E o \in Objs : Drop(o) \/ IsRunning(o) \/ Ppid(o)
+        \/ \E o \in Objs, p \in Pids, kd \in Kinds \ {"oneshot"} : New(o, p, kd)
+        \/ \E o \in Objs, en \in BOOLEAN : Oneshot(o, en)
+        \/ \E o \in Objs : Drop(o) \/ IsRunning(o) \/ Ppid(o) \/ (objs[o].pid > 0 /\ Wait0(o))
         \/ \E o \in Objs, s \in Sigs : Signal(o, s)
         \/ \E o \in Objs, k \in Setters : Set(o, k)
         \/ \E a, b \in Objs : Eq(a, b)
